@@ -480,8 +480,9 @@ func runWindow(sp windowSpec) (o windowObs) {
 
 type shareSpec struct {
 	Name  string `json:"name"`
-	Stack string `json:"stack"` // h2 | h3
-	Kind  string `json:"kind"`  // cancel | deadline | deadline-timer
+	Stack string `json:"stack"`                // h2 | h3
+	Kind  string `json:"kind"`                 // cancel | deadline | deadline-timer
+	EndB  bool   `json:"end_joiner,omitempty"` // the context of the request that JOINED the dial ends (the dial goes on)
 }
 
 type shareObs struct {
@@ -602,6 +603,9 @@ func runShare(sp shareSpec) (o shareObs) {
 	defer cleanup()
 	actx, inject, stop := shareCtx(sp.Kind)
 	defer stop()
+	if sp.EndB {
+		actx = context.Background()
+	}
 	aDone := make(chan error, 1)
 	go func() {
 		_, err := c.R().SetContext(actx).Get(url)
@@ -609,6 +613,54 @@ func runShare(sp shareSpec) (o shareObs) {
 	}()
 	if !settle(started) {
 		o.Harness = "the first request did not start a dial"
+		return
+	}
+	if sp.EndB {
+		// B joins A's dial and B's context ends: B must return at once; A, whose dial then completes, succeeds
+		bctx, binject, bstop := shareCtx(sp.Kind)
+		defer bstop()
+		bDone := make(chan error, 1)
+		go func() {
+			_, err := c.R().SetContext(bctx).Get(url)
+			bDone <- err
+		}()
+		o.Joined = settle(joined)
+		if !o.Joined {
+			o.Harness = "the second request did not join the pending dial"
+			release()
+			return
+		}
+		t0 := time.Now()
+		binject()
+		select {
+		case err := <-bDone:
+			o.B = classify(err)
+			if err != nil {
+				o.BErr = trunc(err.Error(), 160)
+			}
+		case <-time.After(returnBound):
+			o.B = "hang"
+		}
+		o.BMs = time.Since(t0).Milliseconds()
+		release()
+		select {
+		case err := <-aDone:
+			o.A = classify(err)
+			if err != nil {
+				o.AErr = trunc(err.Error(), 160)
+			}
+		case <-time.After(25 * time.Second):
+			o.A = "hang"
+		}
+		if o.B == "hang" {
+			<-bDone
+		}
+		cleanup()
+		var left []string
+		settle(func() bool { left = libGoroutines(); return len(left) == 0 })
+		for _, g := range left {
+			o.Leaked = append(o.Leaked, topFrames(g))
+		}
 		return
 	}
 	bDone := make(chan error, 1)
